@@ -33,7 +33,7 @@ ASSUMPTIONS = ['transport timeouts are honoured by the fake transports in '
                'below that']
 REQUIRED = ['connect_outcome', 'one_connect_event', 'one_disconnect_event',
             'state_reset', 'wait_returns', 'reusable', 'idle_noops',
-            'preempt_races']
+            'preempt_races', 'alive_before_end']
 SHARD_TIMEOUT = {'quick': 500, 'thorough': 3400}
 
 OPENS = ['ok', 'refuse', 'status401', 'status500', 'garbage', 'empty',
@@ -42,7 +42,7 @@ TRANSPORTS = ['polling', 'websocket', 'upgrade']
 PROBES = ['ok', 'wrong', 'silent', 'close', 'refuse']
 ENDERS = ['server-close', 'silence', 'drop', 'post-fail', 'client-main',
           'client-in-message', 'client-in-connect', 'client-in-disconnect',
-          'client-abort', 'write-dead-then-client']
+          'client-abort', 'write-dead-then-client', 'client-during-post']
 PI, PT = 2, 1
 
 
@@ -80,6 +80,9 @@ def one_cycle(rec, w, V, case, cyc, openb, transport, probe, ender, rng):
     srv.nposts = 0
     srv.pollq = srv.mk()        # nothing left over from the previous cycle
     srv.ws = None
+    srv.session_closed = False
+    posts0 = len(srv.posts)
+    frames0 = len(srv.frames)
     ev0 = len(c.events)
     req0 = len(srv.requests)
     tr = {'polling': ['polling'], 'websocket': ['websocket'],
@@ -166,6 +169,23 @@ def one_cycle(rec, w, V, case, cyc, openb, transport, probe, ender, rng):
         elif srv.ws is not None:
             srv.ws.push('4down-%d' % cyc)
         w.quiesce()
+        # the connection is up and nobody has ended it yet
+        if ender != 'client-in-message':
+            rec.count('alive_before_end')
+            early = [e for e in c.events[ev0:] if e['ev'] == 'disconnect']
+            sent = [p['body'] for p in srv.posts[posts0:]] + \
+                [f['frame'] for f in srv.frames[frames0:]]
+            if early or c.c.state != 'connected':
+                V('spurious-disconnect', 'nobody ended the connection yet but '
+                  'state=%r, disconnect events %r; the server received %r' % (
+                      c.c.state, [e['reason'] for e in early], sent))
+                return False
+            if not any(('4up-%d' % cyc) in str(x).split(gen.SEP)
+                       for x in sent):
+                V('established-connection-does-not-send', 'send() on the '
+                  'established connection did not reach the server; it '
+                  'received %r' % (sent,))
+                return False
     # end it
     want_reason = None
     if ender == 'server-close':
@@ -203,6 +223,14 @@ def one_cycle(rec, w, V, case, cyc, openb, transport, probe, ender, rng):
         w.quiesce()
         d = c.call('disconnect')
         want_reason = 'client disconnect'
+    elif ender == 'client-during-post':
+        # the application disconnects while a POST (or frame) of its own is
+        # still in flight
+        srv.script['post_delay'] = 0.5
+        c.call('send', 'slow')
+        w.quiesce()
+        d = c.call('disconnect')
+        want_reason = 'client disconnect'
     elif ender in ('client-main', 'client-abort'):
         d = c.call('disconnect', abort=(ender == 'client-abort'))
         want_reason = 'client disconnect'
@@ -220,7 +248,15 @@ def one_cycle(rec, w, V, case, cyc, openb, transport, probe, ender, rng):
     rec.count('one_disconnect_event')
     dis = [e for e in c.events[ev0:] if e['ev'] == 'disconnect']
     key_sfx = '%s-%s' % (ender, want_tr)
-    if len(dis) != 1:
+    if len(dis) > 1 and disconnect_race(w, c, dis, case):
+        # known finding K3b: the read-loop epilogue and an application
+        # disconnect() both found state == 'connected'
+        V('client-disconnect-race', 'two parties ended the connection at '
+          'once under a schedule with yields: disconnect events %r, '
+          'disconnect() calls %r' % (
+              [(d_['reason'], d_['state'], d_['clk']) for d_ in dis],
+              c.disc_calls[-3:]))
+    elif len(dis) != 1:
         V('disconnect-event-count-' + ender, '%d disconnect events (%r) after '
           'the connection was ended by %s; state=%r' % (
               len(dis), [d_['reason'] for d_ in dis], ender, c.c.state))
@@ -251,6 +287,31 @@ def one_cycle(rec, w, V, case, cyc, openb, transport, probe, ender, rng):
           'tasks still alive: %r' % (wt['done'], live))
         return False
     return True
+
+
+def disconnect_race(w, c, dis, case):
+    """Mechanism of known finding K3b, decided on recorded clocks: threaded
+    client under a schedule with yields; one disconnect event was fired by the
+    read-loop epilogue (handler saw state 'connected', reason 'transport
+    error') and an application disconnect() call that had itself found the
+    state 'connected' overlaps it - either it was inside its call when the
+    epilogue fired, or it entered after the epilogue fired and before the
+    state was reset."""
+    if w.kind != 'T' or not case.get('sched'):
+        return False
+    epi = [d for d in dis if d['state'] == 'connected' and
+           d['reason'] == 'transport error']
+    calls = [k for k in getattr(c, 'disc_calls', [])
+             if k['state'] == 'connected']
+    for e in epi:
+        for k in calls:
+            if k['enter'] < e['clk'] < (k['exit'] or 1e18):
+                return True
+            if k['enter'] > e['clk'] and any(
+                    d['clk'] > k['enter'] and d['state'] == 'disconnecting'
+                    for d in dis):
+                return True
+    return False
 
 
 def idle_noops(rec, w, V):
